@@ -116,6 +116,7 @@ pub fn external_case(cfg: &Config, tmp: &std::path::Path, idx: u64, r: &mut Rng,
     o.underscore_identifiers = r.chance(1, 4);
     o.two_arities = r.chance(1, 4);
     o.preamble_names = r.chance(1, 6);
+    o.sorted_constants = r.chance(1, 3);
     let (t, _sig) = gen_external(r, &o);
     let parsed = match parse_ext(&t) {
         Ok(p) => p,
@@ -148,18 +149,24 @@ pub fn external_case(cfg: &Config, tmp: &std::path::Path, idx: u64, r: &mut Rng,
                 let argv: Vec<&str> = args.iter().map(|s| s.as_str()).collect();
                 if let Ok(o) = run_cli(&cfg.anthem_release(), &argv, None, &[], None) {
                     st.inc("cli_runs");
-                    let mut ok = o.code == Some(0);
+                    let mut why: Vec<String> = Vec::new();
+                    if o.code != Some(0) {
+                        why.push(format!("exit status {:?}", o.code));
+                    }
                     for p in &problems {
                         let f = out.join(format!("{}.p", p.name));
-                        if std::fs::read_to_string(&f).ok().as_deref() != Some(p.text.as_str()) {
-                            ok = false;
+                        match std::fs::read_to_string(&f) {
+                            Ok(s) if s == p.text => {}
+                            Ok(_) => why.push(format!("{}.p differs", p.name)),
+                            Err(_) => why.push(format!("{}.p missing", p.name)),
                         }
                     }
-                    if std::fs::read_dir(&out).map(|d| d.count()).unwrap_or(0) != problems.len() {
-                        ok = false;
+                    let n_files = std::fs::read_dir(&out).map(|d| d.count()).unwrap_or(0);
+                    if n_files != problems.len() {
+                        why.push(format!("{} files for {} problems", n_files, problems.len()));
                     }
-                    if !ok {
-                        st.violation("saved-files-differ", "files written by --save-problems differ from the in-process problem texts", origin_ext(&t, flags).set("stderr", J::s(o.stderr)));
+                    if !why.is_empty() {
+                        st.violation("saved-files-differ", format!("files written by --save-problems differ from the in-process problem texts: {}", why.join("; ")), origin_ext(&t, flags).set("stderr", J::s(o.stderr)).set("stdout", J::s(o.stdout)));
                     }
                 }
                 let _ = std::fs::remove_dir_all(&d);
